@@ -1090,3 +1090,45 @@ def subclass_events(sc, base, seed, pid="C10"):
     out += cmp_records(pid, base, b, "the same events built from user subclasses of the event classes", rtol=1e-9, atol_scale=1e-9,
                        extra_abs=20 * 10.0 ** -(int(np.log10(sc["model"]["monetary_factor"])) + 1))
     return out
+
+
+def _poison(shapes, k=6):
+    """fill the allocator's free lists with NaN blocks of the shapes the model works with: an array that NumPy leaves
+    uninitialised afterwards (np.empty, a masked ufunc without `out=`) receives one of them"""
+    blocks = [np.full(s, np.nan) for s in shapes for _ in range(k)]
+    del blocks
+
+
+def poisoned_memory(sc, base, seed, pid="C17"):
+    """the same simulation stepped twice, the second time with the process memory filled with NaN blocks between the steps
+    (what other simulations created and dropped in the same process leave behind): bitwise the same records"""
+    out = []
+    tw = copy.deepcopy(sc)
+    tw["sim"]["save_records"] = []
+    tw["sim"]["show_progress"] = False
+    dt = int(sc["model"].get("dt", 1))
+
+    def run(poison):
+        sim = scen.build_sim(copy.deepcopy(tw))
+        shapes = sorted({v.shape for v in vars(sim.model).values() if isinstance(v, np.ndarray) and v.ndim in (1, 2) and v.size})
+        for _ in range(0, sc["T"], dt):
+            if poison:
+                _poison(shapes)
+            if sim.next_step() == 1:
+                break
+        return {r: getattr(sim, r).to_numpy(dtype=float).copy() for r in RECORDS}
+    try:
+        a = run(False)
+    except Exception:
+        return out
+    try:
+        b = run(True)
+    except Exception as e:
+        return [viol(pid, 0, f"a run fails only when freed memory holds NaN blocks: {type(e).__name__}: {str(e)[:120]}")]
+    for r in RECORDS:
+        if not np.array_equal(a[r], b[r], equal_nan=True):
+            t = int(np.argwhere(~((a[r] == b[r]) | (np.isnan(a[r]) & np.isnan(b[r]))))[0][0])
+            out.append(viol(pid, t, f"record {r} depends on what freed memory contains (uninitialised array read): "
+                                    f"the same run with NaN blocks left in the allocator differs"))
+            break
+    return out
